@@ -13,7 +13,7 @@ RULE = ("seeded swarm over strategies 0-5 with daily/seasonal maxima (binding an
         "state the decision saw; days within 0.02 mm x compartments of the threshold, or on which the growth stage changes and the "
         "two stages disagree, are counted undecidable, never passed). Non-trivial run: at least one irrigation day, or a binding "
         "cap, or an out-of-season scheduled date; distinct = distinct configuration signatures")
-PROFILE = {"irr_methods": [0, 1, 1, 1, 2, 2, 3, 3, 4, 5, 5], "season_cap_p": 0.45, "n_seasons": [1, 1, 2, 3], "off_season_p": 0.5,
+PROFILE = {"reactive_p": 0.3, "irr_methods": [0, 1, 1, 1, 2, 2, 3, 3, 4, 5, 5], "season_cap_p": 0.45, "n_seasons": [1, 1, 2, 3], "off_season_p": 0.5,
            "event_kinds": ["drought", "drought", "heat_wave", "et0_spike", "storm"], "events_per_year": 2.0, "field_p": 0.25,
            "gw": 0.1, "custom_soil_p": 0.2}
 
